@@ -338,7 +338,10 @@ def eager_contraction_tensor(red_op, bin_op, reduced_vars, *terms):
     if not all(term.dtype == "real" for term in terms):
         raise NotImplementedError("TODO")
     backend = BACKEND_TO_EINSUM_BACKEND[get_backend()]
-    return _eager_contract_tensors(reduced_vars, terms, backend=backend)
+    # Reduced variables that no operand mentions only contribute a multiplicity.
+    absent = reduced_vars - frozenset().union(*(term.input_vars for term in terms))
+    result = _eager_contract_tensors(reduced_vars - absent, terms, backend=backend)
+    return result.reduce(red_op, absent) if absent else result
 
 
 @eager.register(Contraction, ops.LogaddexpOp, ops.AddOp, frozenset, Tensor, Tensor)
@@ -346,7 +349,10 @@ def eager_contraction_tensor(red_op, bin_op, reduced_vars, *terms):
     if not all(term.dtype == "real" for term in terms):
         raise NotImplementedError("TODO")
     backend = BACKEND_TO_LOGSUMEXP_BACKEND[get_backend()]
-    return _eager_contract_tensors(reduced_vars, terms, backend=backend)
+    # Reduced variables that no operand mentions only contribute a multiplicity.
+    absent = reduced_vars - frozenset().union(*(term.input_vars for term in terms))
+    result = _eager_contract_tensors(reduced_vars - absent, terms, backend=backend)
+    return result.reduce(red_op, absent) if absent else result
 
 
 # TODO Consider using this for more than binary contractions.
